@@ -5,6 +5,7 @@ specification `InfluxVerif.ShardSpec` that the real shard is compared with op by
 -/
 import InfluxVerif.Model.Values
 import InfluxVerif.Spec.Shard
+import InfluxVerif.Props.BlockOrder
 
 namespace InfluxVerif.Values
 
@@ -387,5 +388,15 @@ example : Values.dedup [(5, 'a'), (1, 'b'), (5, 'c')] = [(1, 'b'), (5, 'c')] := 
 example : upsert 5 "i2" [(1, "i0"), (5, "i1"), (9, "i3")] = [(1, "i0"), (5, "i2"), (9, "i3")] := by decide
 example : Values.merge [(1, 'a'), (3, 'b')] [(3, 'c'), (4, 'd')] = [(1, 'a'), (3, 'c'), (4, 'd')] := by
   simp [Values.merge]
+
+/-! ### the order in which a KeyCursor visits the blocks of a key (Props/BlockOrder.lean) -/
+
+/-- `sortLocations` keeps an older file's block in front of a newer file's overlapping block,
+in both directions and whatever the number of blocks — the pinned tree's `sort.Sort` did not
+beyond 12 blocks -/
+theorem cursor_order_keeps_files (l : List BlockOrder.Blk) (a b : BlockOrder.Blk)
+    (hab : [a, b].Sublist l) (hov : BlockOrder.overlaps a b = true) (hfile : a.file ≤ b.file) :
+    [a, b].Sublist (BlockOrder.isort BlockOrder.lessAsc l) ∧ [a, b].Sublist (BlockOrder.isort BlockOrder.lessDesc l) :=
+  BlockOrder.cursor_overlapping_keep_file_order l a b hab hov hfile
 
 end InfluxVerif.ShardSpec
